@@ -267,9 +267,17 @@ TQuiesce ==
         /\ st.drops[e] = <<>>
         /\ st.rxblk[e].k = "none" \/ R.lazy
   (* C08: nothing blocks forever -- a task that left its main loop has finished by the time the
-     system is quiescent (both tasks were polled with full grants until nothing changed)        *)
-  /\ \A e \in E : st.task[e].ph \in {"run", "done"}
-  /\ UNCHANGED <<st, hm>>
+     system is quiescent (both tasks were polled with full grants until nothing changed).
+     Known finding F20: after a graceful end (its Close was sent) a task waits without bound for the
+     peer's Close; a peer whose receive loop is stalled by a full accept / bind queue, because its
+     application takes nothing, never answers, and whatever is pending at the waiting endpoint
+     stays pending.  Exactly that situation is recorded (st.kf) instead of being rejected. *)
+  /\ LET Waiting(e) == /\ st.task[e].ph = "drain"
+                        /\ st.task[Peer(e)].ph = "run" /\ st.rxblk[Peer(e)].k # "none" /\ R.lazy
+         stuck == {e \in E : Waiting(e)}
+     IN /\ \A e \in E : st.task[e].ph \in {"run", "done"} \/ e \in stuck
+        /\ st' = IF stuck = {} THEN st ELSE [st EXCEPT !.kf = @ \cup {"DrainStalledPeer"}]
+  /\ UNCHANGED hm
 
 Next ==
   \/ TOpen \/ TOpenPoll \/ TAccept \/ TWrite \/ TRead \/ TShutdown \/ TDropS \/ TDropMux \/ TCancel
